@@ -50,7 +50,7 @@ def location_rules(ctx, P):
                 pdest = pt["dest"]["local"]
                 pblk = [b2 for b2, t2 in ctx.find_calls(c, r"Error::prepend_at$")][0]
                 srcs = _sources(c, s_, s_.operand(rec[0][1]["args"][0]))
-                derives = r0.startswith("darling_core::error::Error::prepend_at(") or pdest in srcs
+                derives = "darling_core::error::Error::prepend_at(" in r0 or pdest in srcs
                 child = a0 == "a2" if c is not f else ("Iterator>::next(" in a0 or "as Some).0" in a0)
                 okc = child and derives and c.dominates(pblk, rec[0][0])
                 detail = "prepend_at(%s, %s); into_vec(%s) derives from prepend_at: %s" % (a0[:60], a1[:60], r0[:80], derives)
@@ -80,12 +80,16 @@ def location_rules(ctx, P):
         # prefix first, the error's own locations after it
         ext = ctx.find_calls(f, r"Extend<.*>>::extend$|^alloc::vec::Vec::<T, A>::(append|extend_from_slice)$")
         ok = len(ext) == 1 and ctx.expr(f, ext[0][1]["args"][0]) == "a2" and ctx.expr(f, ext[0][1]["args"][1]) == "self.locations"
-        ctx.ob(P + ".prepend_at.ancestors-first", f.key, "locations.extend(self.locations)", ok, "extend(%s)" % [(ctx.expr(f, t["args"][0]), ctx.expr(f, t["args"][1])) for _, t in ext])
+        # the same result the other way round: the prefix is swapped in and the old locations appended
+        swapped = len(ext) == 1 and ctx.expr(f, ext[0][1]["args"][0]) == "self.locations" and ctx.expr(f, ext[0][1]["args"][1]) == "core::mem::replace(self.locations, a2)"
+        ctx.ob(P + ".prepend_at.ancestors-first", f.key, "locations.extend(self.locations)", ok or swapped, "extend(%s)" % [(ctx.expr(f, t["args"][0]), ctx.expr(f, t["args"][1])) for _, t in ext])
         asg = ctx.find_field_assigns(f, "locations", 1)
         ok = len(asg) == 1 and ctx.expr(f, asg[0][2]["r"]) == "a2" and f.dominates(ext[0][0], asg[0][0]) if ext else False
+        if swapped:
+            rp = ctx.find_calls(f, r"^core::mem::replace$")
+            ok = not asg and len(rp) == 1 and f.dominates(rp[0][0], ext[0][0])
         ctx.ob(P + ".prepend_at.stores-combined", f.key, "self.locations = locations", ok, "assignments %s" % [ctx.expr(f, a[2]["r"]) for a in asg])
-        for blk, i, st in asg:
-            ctx.requires(P + ".prepend_at.only-when-nonempty", f, blk, "self.locations = …", [("ne", r"^len\(a2\)$", 0)])
+        # (no rule on the `!locations.is_empty()` guard: with an empty prefix both ways leave the locations as they were)
         rs = ctx.ret_values(f)
         ctx.ob(P + ".prepend_at.returns-self", f.key, "return", rs == ["self"], "returns %s" % rs)
     f = ctx.fn(E + "at")
@@ -152,7 +156,7 @@ def syn_conversion_rules(ctx, P):
                 ctx.ob(P + ".combine-in-loop", f.key, "combine repeated for every remaining leaf", inloop, "combine must be inside the loop over the flattened iterator")
             else:
                 # the same accumulation written as `iter.fold(first, |mut acc, next| { acc.combine(next); acc })`
-                folds = [(b2, t2) for b2, t2 in ctx.find_calls(M, r"Iterator(>)?::fold$") if owner.key in ctx.expr(M, t2["args"][2])]
+                folds = [(b2, t2) for b2, t2 in ctx.find_calls(M, r"Iterator(>)?::(fold|reduce)$") if owner.key in ctx.expr(M, t2["args"][-1])]
                 crets = ctx.ret_values(owner)
                 leaf = args[1] == "a3" if mapped else re.match(r"^" + FROM + r"\(a3\)$", args[1]) is not None
                 ok = len(folds) == 1 and args[0] == "a2" and leaf and crets == ["a2"]
@@ -162,9 +166,11 @@ def syn_conversion_rules(ctx, P):
                     ok = re.search(IT, it) is not None and (re.search(r"Iterator(>)?::map\(", it) is not None) == mapped
                     ctx.ob(P + ".combine-in-loop", f.key, "combine repeated for every remaining leaf", ok, "fold over %s" % it[:160])
                     # the accumulator starts from the first leaf, converted
-                    init = norm(ctx.expr(M, folds[0][1]["args"][1]))
-                    ok = re.search(r"Iterator>::next\(.*" + IT, init) is not None and (mapped or re.search(FROM, init) is not None)
-                    ctx.ob(P + ".combine-each-leaf", f.key, "fold starts from the first leaf", ok, "initial value %s" % init[:200])
+                    if len(folds[0][1]["args"]) == 3:
+                        init = norm(ctx.expr(M, folds[0][1]["args"][1]))
+                        ok = re.search(r"Iterator>::next\(.*" + IT, init) is not None and (mapped or re.search(FROM, init) is not None)
+                        ctx.ob(P + ".combine-each-leaf", f.key, "fold starts from the first leaf", ok, "initial value %s" % init[:200])
+                    # (`reduce` starts from the first element of the same iterator by definition)
         if mapped:
             ok = True
             detail = "map(%s)" % [[ctx.expr(M, a)[:120] for a in t["args"]] for _, t in mp]
